@@ -4,6 +4,7 @@ import (
 	"fmt"
 	"go/token"
 	"go/types"
+	"sort"
 	"strings"
 
 	. "govc/term"
@@ -507,4 +508,70 @@ func (x *exec) ownerOfHeld(s *State, k string) (PtrV, bool) {
 		return o, true
 	}
 	return PtrV{}, false
+}
+
+// bytesLockset: reading or writing the byte contents of a backing array that
+// is (or may be) a buffer protected by a monitor whose "protects" list says
+// "bytes" requires that monitor's lock. The obligation is raised for copies
+// performed by the function itself (copy/append), for every monitor it has
+// locked in this activation (its owner is then known):
+//     lock held  \/  the array is not the backing array of any protected slice.
+func (x *exec) bytesLockset(s *State, arr *Term, write bool, pos token.Pos) {
+	e := x.e
+	c := e.C
+	if e.dry > 0 || len(e.P.Monitors) == 0 || e.isFreshTerm(arr) {
+		return
+	}
+	for _, k := range sortedOwnerKeys(s.owners) {
+		mi := e.monitorByLock(k)
+		if mi == nil {
+			continue
+		}
+		owner := s.owners[k]
+		targets := x.monProtected(mi, owner, s)
+		if !mi.bytes {
+			continue
+		}
+		held, ok := s.held[k]
+		if !ok {
+			held = c.False()
+		}
+		if !write {
+			if r, ok := s.held[k+"#r"]; ok {
+				held = c.Or(held, r)
+			}
+		}
+		if held.IsTrue() {
+			continue
+		}
+		var notProt []*Term
+		for _, tg := range targets {
+			if !strings.HasSuffix(tg.key, "#arr") || tg.so == nil {
+				continue
+			}
+			hk := e.heapGet(s, tg.key, tg.so)
+			switch {
+			case tg.row:
+				kv := c.BoundVar("k", Int)
+				in := c.And(c.Le(tg.off, kv), c.Lt(kv, c.Add(tg.off, tg.ln)))
+				notProt = append(notProt, c.Quant("forall", []*Term{kv}, c.Implies(in, c.Ne(c.Select(c.Select(hk, tg.ref), kv), arr)), nil))
+			case tg.ref != nil:
+				notProt = append(notProt, c.Ne(c.Select(hk, tg.ref), arr))
+			}
+		}
+		what := "read"
+		if write {
+			what = "write"
+		}
+		x.oblige("lockset", what+":bytes", pos, s, c.Or(held, c.And(notProt...)), what+" of the contents of a buffer protected by "+shortHeapKey(k)+" without holding it")
+	}
+}
+
+func sortedOwnerKeys(m map[string]PtrV) []string {
+	var ks []string
+	for k := range m {
+		ks = append(ks, k)
+	}
+	sort.Strings(ks)
+	return ks
 }
